@@ -96,14 +96,6 @@ example (H : HashFn) (rs : List (List Log)) :
     (List.replicate 2048 (createBloom H rs)).length = 2048 ∧ ∀ b ∈ List.replicate 2048 (createBloom H rs), b.length = 256 :=
   ⟨List.length_replicate, fun b hb => by rw [List.eq_of_mem_replicate hb]; exact createBloom_length H rs⟩
 
-theorem mapM_error {α β ε : Type} (f : α → Except ε β) (g : α → β) (l1 : List α) (a : α) (l2 : List α) (e : ε)
-    (h1 : ∀ x ∈ l1, f x = .ok (g x)) (ha : f a = .error e) : (l1 ++ a :: l2).mapM f = .error e := by
-  induction l1 with
-  | nil => rw [List.nil_append, List.mapM_cons, ha]; rfl
-  | cons x xs ih =>
-    rw [List.cons_append, List.mapM_cons, h1 x (by simp), ih (fun y hy => h1 y (by simp [hy]))]
-    rfl
-
 /-- Side observation carried as a precondition everywhere: `Bitset(idx)` compares the BIT index with the SECTION SIZE, so for
     every section size below 2048 (multiple of 8, section completely filled) committing the section fails with
     `errSectionOutOfBounds` — the index can never advance and queries are served by the header scan. -/
